@@ -314,6 +314,7 @@ type workerStats struct {
 
 type workerResult struct {
 	round, w  int
+	checks    int
 	seed      uint64
 	exit      int
 	output    string
@@ -330,7 +331,7 @@ type workerResult struct {
 var sigRe = regexp.MustCompile(`VIOLATION-SIG (\S+) :: (.*)`)
 
 func runWorker(bin string, sc *scratch, id, tier string, ph phase, round, w int, seed uint64, checks int, timeout time.Duration, extraArgs []string) *workerResult {
-	res := &workerResult{round: round, w: w, seed: seed}
+	res := &workerResult{round: round, w: w, seed: seed, checks: checks}
 	dir := filepath.Join(sc.dir, fmt.Sprintf("%s-r%dw%d", ph.Engine, round, w))
 	if ph.Race {
 		dir += "race"
@@ -597,6 +598,12 @@ type replayMeta struct {
 	Message   string   `json:"message"`
 	Env       []string `json:"env,omitempty"`
 	Kind      string   `json:"kind"` // "rapid-failfile" | "race-seed"
+	// Checks is the number of rapid checks the worker was started with: a
+	// failure that depends on state carried over from earlier runs of the
+	// same process (a package-level cache in the code under test) does not
+	// replay from the minimised fail file alone; the fallback re-runs the
+	// worker's whole seeded sequence.
+	Checks int `json:"checks"`
 }
 
 func merge(cfg propCfg, tier string, seed uint64, seeds []uint64, all []*workerResult, phaseInfo []map[string]interface{}, workers int, wall time.Duration, known []knownEntry) (map[string]interface{}, []violation) {
@@ -634,7 +641,7 @@ func merge(cfg propCfg, tier string, seed uint64, seeds []uint64, all []*workerR
 			ph := phaseOf(cfg, r)
 			base := filepath.Join(verifDir, "replays", fmt.Sprintf("%s-%s-s%d", cfg.ID, sanitize(r.signature), r.seed))
 			replay := base + ".fail"
-			meta := replayMeta{Property: cfg.ID, Engine: ph.Engine, Test: ph.Test, Tier: tier, Inject: ph.Inject, Race: ph.Race, Seed: r.seed, Signature: r.signature, Message: r.message, Env: ph.Env, Kind: "rapid-failfile"}
+			meta := replayMeta{Property: cfg.ID, Engine: ph.Engine, Test: ph.Test, Tier: tier, Inject: ph.Inject, Race: ph.Race, Seed: r.seed, Signature: r.signature, Message: r.message, Env: ph.Env, Kind: "rapid-failfile", Checks: r.checks}
 			if r.failfile != "" {
 				b, _ := os.ReadFile(r.failfile)
 				os.WriteFile(replay, b, 0o644)
@@ -786,6 +793,19 @@ func cmdReplay(args []string) int {
 		if r.signature != "" {
 			same := r.signature == meta.Signature
 			fmt.Printf("VIOLATION property=%s replay=%s\n  reproduced signature=%s (recorded %s, identical=%v)\n  %s\n", meta.Property, path, r.signature, meta.Signature, same, r.message)
+			return 1
+		}
+		if r.infraErr != "" {
+			fmt.Fprintf(os.Stderr, "vcheck: replay trouble: %s\n%s\n", r.infraErr, tail(r.output, 40))
+			return 2
+		}
+	}
+	if meta.Kind == "rapid-failfile" && meta.Checks > 0 {
+		// fallback: the whole seeded sequence of the worker (state carried
+		// between runs of one process is part of the execution)
+		r := runWorker(bin, sc, meta.Property, meta.Tier, ph, 1, 0, meta.Seed, meta.Checks, 60*time.Minute, []string{"-rapid.nofailfile", "-rapid.shrinktime", "1s"})
+		if r.signature != "" {
+			fmt.Printf("VIOLATION property=%s replay=%s\n  reproduced by re-running the worker's seeded sequence (seed %d, %d checks): signature=%s (recorded %s)\n  %s\n", meta.Property, path, meta.Seed, meta.Checks, r.signature, meta.Signature, r.message)
 			return 1
 		}
 		if r.infraErr != "" {
